@@ -50,6 +50,10 @@ class CHECK(Check):
                 if any(t not in m.lexeme for t in s) or not m.simulate(s)[0]:
                     continue
                 out.append((d, m.text_of(s, numbered=True)))
+            # USING / SET option lists with the key names that grammar actions and printers treat specially
+            from vf import lexemes
+            for text in f.kw_family(['abc'] + lexemes.MAGIC_IDS):
+                out.append((d, text))
             for t in ['select t.* from t', 'select * from int1.t1 join int2.t2 on t1.a = t2.a where t1.b = 1',
                       'select * from int1.t1 where a in (select b from int2.t2)', 'select t.a, pred.p from int1.t1 as t join mindsdb.pred', "select * from int1.t1 as t join mindsdb.pred where t.a > '2020-01-01'",
                       'select * from int1.t1 as t join mindsdb.pred where t.a > 5', 'select * from mindsdb.pred join int1.t1 as t where t.a > latest',
